@@ -467,6 +467,11 @@ func (c *Client) sendAllocateRequest(protocol proto.Protocol) ( //nolint:cyclop
 	if err := lifetime.GetFrom(res); err != nil {
 		return relayed, lifetime, nonce, reservationToken, err
 	}
+	if lifetime.Duration <= 0 {
+		// Nothing was allocated, and a refresh period of zero would make
+		// the refresh timer fire back to back.
+		return relayed, lifetime, nonce, reservationToken, errZeroAllocationLifetime
+	}
 
 	// Getting reservation-token from response
 	if c.evenPort {
